@@ -1030,7 +1030,7 @@ package solver
 
 // ---------------------------------------------------------------- run-time propagation of cardinality constraints (C02)
 
-//@ define cardwf(s *Solver, c *Clause) bool = s != nil && c != nil && c.pbData == nil && len(s.reason) == len(s.model) && litsWF(c.lits, len(s.model)) && c.Cardinality() >= 1
+//@ define cardwf(s *Solver, c *Clause) bool = s != nil && c != nil && c.pbData == nil && len(s.reason) == len(s.model) && litsWF(c.lits, len(s.model)) && c.Cardinality() >= 1 && c.Cardinality() <= len(c.lits)
 
 // swapFalse (trusted frame): permutes the literals of the constraint and updates the watch lists
 //@ func (*Solver).swapFalse
@@ -1039,12 +1039,17 @@ package solver
 
 // simplifyCardConstr (one visit of a cardinality constraint by propagation): same statement as
 // simplifyPseudoBool, with the counters of the scan tied to the number of true / non-false literals.
+// Conflict detection: the visit only goes on to re-arrange the watched literals (swapFalse) when
+// more than `degree` literals are not false (assertion enough), i.e. a falsified or tight
+// constraint never slips through; in simplifyPseudoBool the same is carried by the loop invariant
+// slack >= 1 of the unit scan together with the contract of slackSum.
 //@ func (*Solver).simplifyCardConstr
 //@   ghost A asg
 //@   requires wf: cardwf(s, clause) && lvl >= 1 && !aliased(clause.lits, s.trail)
 //@   modifies s.model[*], s.reason[*], s.trail, s.trail[*], clause.lbdValue, clause.lits[*], s.wl.wlistPb[*], all []*Clause
 //@   ensures  sound: old(agreesS(s.model, A)) && old(holds(clause, A)) ==> result && agreesS(s.model, A)
 //@   ensures  grow:  forall(v, 0, len(s.model), old(s.model[v]) != 0 ==> s.model[v] == old(s.model[v]))
+//@   assert before-call (*Solver).swapFalse#1 enough: nfsum(clause.lits, nil, s.model, len(clause.lits)) >= clause.Cardinality() + 1
 //@   assert after-loop 1 nf:    lem_psum_nf(clause.lits, nil, A, s.model, len(clause.lits))
 //@   assert exit nfx: lem_psum_nf(clause.lits, nil, A, s.model, len(clause.lits))
 //@   assert after-loop 1 tight: lem_psum_tight(clause.lits, nil, A, s.model, len(clause.lits), 0)
@@ -1052,6 +1057,7 @@ package solver
 //@     invariant idx:   0 <= i && i <= length && length == len(clause.lits) && card == clause.Cardinality()
 //@     invariant cnt:   nbTrue == tsum(clause.lits, nil, s.model, i) && nbFalse == i - nfsum(clause.lits, nil, s.model, i) && nbUnb == nfsum(clause.lits, nil, s.model, i) - tsum(clause.lits, nil, s.model, i)
 //@     invariant next:  i < length ==> tsum(clause.lits, nil, s.model, i + 1) >= tsum(clause.lits, nil, s.model, i) && nfsum(clause.lits, nil, s.model, i + 1) >= nfsum(clause.lits, nil, s.model, i)
+//@     invariant room:  length - nbFalse >= card && nbTrue < card
 //@   loop 2
 //@     invariant wf:    cardwf(s, clause) && !aliased(clause.lits, s.trail) && s.model == old(s.model) && grown(s.trail) && 0 <= i
 //@     invariant same:  clause.lits == old(clause.lits) && clause.pbData == nil && clause.Cardinality() == old(clause.Cardinality()) && forall(k, 0, len(clause.lits), clause.lits[k] == old(clause.lits[k]))
